@@ -330,6 +330,9 @@ def check(argv):
     tier, seed = env_tier_seed(argv)
     report = Report("C09", tier, seed, "other", f"./vt check C09 --tier {tier}")
     report.guarded("items/from_aos permutation obligation", kind_a, report)
+    from contracts import taco_validator
+
+    report.guarded("taco_structure_to_cffi validation contract", taco_validator.run, report, 3 if tier == "quick" else 4)
     max_order = 3 if tier == "quick" else 4
     for o in range(0, max_order + 1):
         ALL_FORMATS[o] = all_format_texts(o)
@@ -373,7 +376,9 @@ def check(argv):
     report.assumptions = ["the tree builders coordinates_to_tree / tree_to_indices_and_values use nested closures over shared lists and are outside the pyvc subset: bounded stand-in only",
                           "values are finite doubles; sums of duplicates use small dyadic values so float addition is exact"]
     return report.finish(explanation="Kind A: the leaf of Tensor.items() composed with the permutation step of Tensor.from_aos is the identity for every order and every "
-                         "mode ordering (program points extracted from the real source each run; z3 over uninterpreted permutations). Kind C: exhaustive/bounded "
+                         "mode ordering (program points extracted from the real source each run; z3 over uninterpreted permutations). Kind B: taco_structure_to_cffi (the gate every constructor and every unpickle passes through) executed "
+                         "from its real source with symbolic pos/crd/vals arrays and dimensions, for every mode vector x mode ordering: a normal return implies pos/crd/vals are "
+                         "well formed with every coordinate inside its dimension, and only ValueError escapes. Kind C: exhaustive/bounded "
                          "enumeration of constructors, to_format and pickle round trips, read back through the raw arrays with the strict wf_taco of specs/taco.py.")
 
 
